@@ -141,7 +141,8 @@ def run(pid, tier):
         lines = gen.join(inter).split("\n")
         api = apicheck.run_api(bdir, drv, lines, spec="ApiTrace+PchkTrace")
         for mm in api["msgs"]:
-            if "INFRA" not in mm["tags"] and pid not in mm["tags"]:
+            # (an encoder that fails on an accepted configuration only when other sessions lived before it is this property's business)
+            if ("INFRA" not in mm["tags"] or mm["check"] == "driver-codeword") and pid not in mm["tags"]:
                 mm["tags"].append(pid)
         apicheck.judge(pid, api, verdict)
         nested = 0
